@@ -94,6 +94,20 @@ def rule_janus_sequence(ctx):
                         ctx.report('R10.3', 'janus:%s:args' % nm, 'src/integrator_janus.c:%s' % lines[0],
                                    'this call of %s passes %s while the other call sites pass %s: the same integer map must be applied at every stage'
                                    % (nm, list(v), list(maj)))
+        # unit conversions folded into the step-size argument (see compose.run): one factor per operator
+        for (sp_, sv_), ratios in getattr(it, 'scale_probe', []):
+            for nm, rs in ratios.items():
+                vals = sorted({r_ for r_, _ in rs})
+                if len(vals) > 1:
+                    counts = {v_: sum(1 for r_, _ in rs if r_ == v_) for v_ in vals}
+                    maj = max(vals, key=lambda v_: counts[v_])
+                    for r_, line in rs:
+                        if r_ != maj:
+                            ctx.report('R10.3', 'janus:%s:args' % nm, 'src/integrator_janus.c:%s' % line,
+                                       'with scale_pos = %d and scale_vel = %d the step-size argument of this call of %s changes by the factor %s while the other call sites change by %s: the conversion to integer units differs between stages (the wrong scale is applied here)'
+                                       % (sp_, sv_, nm, r_, maj))
+                            break
+                    break
         if order == 2:
             samples.append('order 2: %s' % [t[0] for t in it.trace])
     ctx.covered('R10.5j', 'JANUS operator sequence per order: palindrome, to_double before every force evaluation, uniform scale arguments', n, floor=5, samples=samples)
